@@ -47,7 +47,7 @@ def inject(rng, sid):
     shape = rng.choice(["project", "noproject", "readdirs", "parsingdirs", "configdirs", "dropinonly", "rootprefix"])
     p = gen_tree.shape_params(rng, shape)
     tg = gen_tree.Tagger()
-    t = gen_tree.random_tree(rng, p["dirs"], p["name"], p["dsfx"], p["postfixes"], tg)
+    t = gen_tree.random_tree(rng, p["dirs"], p["name"], p["dsfx"], p["postfixes"], tg, decoys=p["decoys"])
     tv = trees.TreeView(t)
     main, drops = trees.consulted(tv, p["dirs"], p["name"], p["dsfx"], p["postfixes"])
     files = ([main] if main else []) + drops
